@@ -613,3 +613,16 @@ UNITS.append(Unit("rp.setup_schedulers", "setupsched.c", defines=["PREFIX_TABLE=
     ], loops={1: LOOP_SETUPSCHED, "count": 1})}, funcs=[DP_CPP + ": resource::detail::partitioner::setup_schedulers"], min_obligations=10,
     doc="F+I: each documented scheduler name written in full selects the policy of that name; a value that matches no name stops start-up; "
         "only pools without an explicit scheduler get the default (symbolic number of pools)"))
+
+
+# ---- the process mask string -> CPU mask conversion (added by main after seeded change C16-8 was missed) ------------------------------------
+CPU_MASK_HPP = "libs/pika/topology/include/pika/topology/cpu_mask.hpp"
+UNITS.append(Unit("mask.from_string.to_mask", "hexmask.c", enforce="to_mask",
+                  lifts={"body": Lift(CPU_MASK_HPP, r"constexpr auto const to_mask = \[\]\(unsigned char const c\)", rules=[
+                      Sub(r"\bstd::tolower\(", "vx_tolower(", None),
+                      Call(r"\bthrow std::out_of_range", "{ vx_exc = true; return 0; }", None, stmt=True)])},
+                  funcs=[CPU_MASK_HPP + ": from_string_impl<mask_type>::call (lambda to_mask: one hexadecimal digit -> its four bits)"],
+                  min_obligations=3,
+                  doc="F: every hexadecimal digit, in either case, yields exactly its value; every other character is rejected (all 256 characters)"))
+META["trusted_base"] = list(META.get("trusted_base", [])) + ["specs/C16/hexmask.c vx_tolower: std::tolower in the \"C\" locale; `throw std::out_of_range(...)` -> flag + return"]
+META["not_decided"] = list(META.get("not_decided", [])) + ["the accumulation loop of from_string_impl<mask_type>::call (resize / shift / or on the bitset type) and the 0x prefix checks"]
